@@ -48,9 +48,23 @@ def run(ck):
     ck.ob("C15-R1", "type:Connection::state_", bool(sf) and sf[0]["type"].replace(" ", "").startswith("std::atomic<"), "%s:%s" % (cc["file"], sf[0]["line"] if sf else 0), "",
           "declared %s" % (sf[0]["type"] if sf else "?"), nontrivial=False)
     g = lib.single(prog, POOL + "pickConnection")
-    tests = [b for b in g.blocks.values() if b.term and b.term.get("k") == "if" and ("c:" + CONN + "tryUse") in (b.term.get("refs") or [])]
+    # edges on which a connection is known to be claimed: tryUse() returned true (tested directly / through a local), or a
+    # std::find_if over the candidates whose predicate is `tryUse()` found an element (its result differs from end())
+    claimed_edges = lib.result_edges(g, CONN + "tryUse", True)
+    for d_ in g.events("decl"):
+        if strip_tmpl(d_.get("icall") or "") in ("std::find_if",) and d_.get("var"):
+            preds = [lf for c_ in g.calls(lambda c_: c_.base_callee() == "std::find_if" and c_.block == d_.block and c_.idx < d_.idx)
+                     for a_ in c_.get("args", []) if a_.get("lam") for lf in prog.lambda_by_id(a_["lam"].split("#in:")[0], g)]
+            if preds and all(any(("c:" + CONN + "tryUse") in (r_.get("refs") or []) for r_ in lf.events("return")) and
+                             all(("c:" + CONN + "tryUse") in (r_.get("refs") or []) for r_ in lf.events("return")) for lf in preds):
+                for b in g.blocks.values():
+                    if b.term and len(b.succs) == 2 and (b.term.get("lhs") or {}).get("v") == d_["var"] and "end" in ((b.term.get("rhs") or {}).get("t") or ""):
+                        for k_ in (0, 1):
+                            r_ = lib.rel_on_edge(b.term, k_)
+                            if r_ is not None and r_[1] == "!=" and b.succs[k_] is not None:
+                                claimed_edges.append((b.id, k_))
     rets = [e for e in g.events("return") if e.get("const") != "nullptr" and (e.get("t") or "").strip() != "nullptr"]
-    ok = len(tests) == 1 and len(rets) >= 1 and all(cfg.edge_dominates(g, tests[0].id, 1 if tests[0].term.get("neg") else 0, r) for r in rets)
+    ok = bool(claimed_edges) and len(rets) >= 1 and all(any(cfg.edge_dominates(g, bid, k_, r) for bid, k_ in claimed_edges) for r in rets)
     ck.ob("C15-R1", "pickConnection/returns-only-claimed", ok, g.loc, g, "a non-null connection is returned only on the tryUse() edge")
     # pool creation under the lock with the configured size; no other growth
     ls = lib.locksets(g)
@@ -66,10 +80,21 @@ def run(ck):
         ok = fn.base == POOL + "pickConnection"
         detail = "pool grows in %s" % fn.base
         if ok:
-            loops = [b for b in g.blocks.values() if b.term and b.term.get("k") == "for" and ("f:" + POOL + "maxConnectionsPerHost") in (b.term.get("refs") or [])
-                     and b.term.get("cmp") == "<"]
-            ins = [x for x in g.calls(lambda x: x.base_callee() == "std::unordered_map::insert" and strip_tmpl((x.get("recv") or {}).get("f") or "") == POOL + "conns")]
-            ok = bool(loops) and cfg.edge_dominates(g, loops[0].id, 0, e) and bool(ins) and lib.holds(ls.get((ins[0].block, ins[0].idx)), POOL + "connsLock", "this") \
+            # the creating loop is bounded by the configured pool size: its condition mentions maxConnectionsPerHost, or a counter that
+            # was initialised from it
+            MAXF = "f:" + POOL + "maxConnectionsPerHost"
+            from_max = {d2["var"] for d2 in g.events("decl") if d2.get("var") and MAXF in (d2.get("refs") or [])}
+            lp_ = cfg.innermost_loop(g, e.block)
+            loops = []
+            if lp_ is not None:
+                for bid_ in lp_[1]:
+                    t_ = g.blocks[bid_].term
+                    if t_ and t_.get("k") in ("for", "while", "do") and t_.get("cmp") and \
+                            (MAXF in (t_.get("refs") or []) or any(("v:" + v_) in (t_.get("refs") or []) for v_ in from_max)):
+                        loops.append(g.blocks[bid_])
+            ins = [x for x in g.calls(lambda x: x.base_callee() in ("std::unordered_map::insert", "std::unordered_map::emplace", "std::unordered_map::try_emplace")
+                                      and strip_tmpl((x.get("recv") or {}).get("f") or "") == POOL + "conns")]
+            ok = bool(loops) and bool(ins) and lib.holds(ls.get((ins[0].block, ins[0].idx)), POOL + "connsLock", "this") \
                 and lib.holds(ls.get((e.block, e.idx)), POOL + "connsLock", "this")
             detail = "created inside `for (i < maxConnectionsPerHost)` and inserted into conns under connsLock"
         ck.ob("C15-R1", "pool-growth:%s" % fn.base.replace(E, ""), ok, e.loc, fn, detail)
@@ -103,7 +128,7 @@ def run(ck):
                 # the connection may travel through a local work list filled only with freshly picked connections
                 d = [x for x in fn.events("decl") if x.get("var") == rv and x.get("vd") == (e.get("recv") or {}).get("rootd")]
                 src = ((d[0].get("init") or {}).get("root")) if d else None
-                lists = [x for x in fn.events("decl") if x.get("var") and "vector" in (x.get("type") or "") and "Connection" in (x.get("type") or "")]
+                lists = [x for x in fn.events("decl") if x.get("var") and "vector" in (x.get("ctype") or x.get("type") or "") and "Connection" in (x.get("ctype") or x.get("type") or "")]
                 for lst in lists:
                     adds = [c for c in fn.calls(lambda c: (c.get("recv") or {}).get("v") == lst["var"] and lib.is_stl_mutation(c) and c.get("args"))]
                     from_list = any((r_.get("init") or {}).get("v") == lst["var"] or ("v:" + lst["var"]) in (r_.get("refs") or []) for r_ in fn.events("decl") if r_.get("var") in (src, rv, "__range1", "__range2", "__range3"))
@@ -129,6 +154,9 @@ def run(ck):
     def is_reset(ev):
         c = strip_tmpl(ev.get("callee") or "") if ev["k"] == "call" else ""
         return c in ("Pistache::Http::Private::ParserBase::reset", "Pistache::Http::Private::ParserImpl::reset") or c in (CONN + "close", CONN + "handleError")
+    done_direct, done_via_helper = lib.completion_callback_pred(prog, CONN)
+    summ15 = lib.Summaries(prog)
+    HANDLERS = {CONN + n_ for n_ in ("handleResponsePacket", "handleError", "handleTimeout", "close", "connect")}
     for name in ("handleResponsePacket", "handleError", "handleTimeout"):
         fn = lib.single(prog, CONN + name)
         guards = [b for b in fn.blocks.values() if b.term and b.term.get("k") == "if" and strip_tmpl((b.term.get("core") or {}).get("f") or "") == RE and not b.term.get("cmp")]
@@ -157,14 +185,7 @@ def run(ck):
         def is_entry_reset(ev):
             return ev["k"] == "call" and ev.base_callee() == "std::unique_ptr::reset" and strip_tmpl((ev.get("recv") or {}).get("f") or "") == RE
 
-        def is_done(ev):
-            if ev["k"] != "call":
-                return False
-            if ev.base_callee() == "std::function::operator()":
-                rv = ev.get("recv") or {}
-                copies = {d["var"] for d in ev.func.events("decl") if strip_tmpl((d.get("init") or {}).get("f") or "").endswith("RequestEntry::onDone")}
-                return rv.get("v") in copies or strip_tmpl(rv.get("f") or "").endswith("RequestEntry::onDone")
-            return False
+        is_done = done_direct
 
         def is_timer_release(ev):
             return ev["k"] == "call" and (ev.get("callee") or "") == "Pistache::TimerPool::releaseTimer"
@@ -189,6 +210,10 @@ def run(ck):
                                     "callback is destroyed by the reset that follows" % ev.get("l"))
                 return (settled, reset, True)
             return st
+        # private helpers of the connection that the settle / release / callback steps were moved into are walked through
+        def relevant(g_):
+            return g_.base.startswith(CONN) and g_.base not in HANDLERS and any(settle(x) or is_entry_reset(x) or is_done(x) for x in g_.events("call"))
+        step = lib.inlined_step(prog, step, relevant)
         exits, _ = cfg.run_automaton(fn, (None, False, False), step, start=inside)
         for x in exits:
             if x.kind == "throw":
@@ -201,22 +226,26 @@ def run(ck):
         ck.ob("C15-R3", "%s/settle-reset-onDone" % name, not problems, fn.loc, fn, "; ".join(sorted(set(problems))) or
               "exactly one of resolve/reject, then requestEntry.reset, then onDone on every path")
         # timer released before the request is settled
-        rel = [e for e in fn.events("call") if is_timer_release(e)]
-        dis = [e for e in fn.calls(lambda e: (e.get("callee") or "") == "Pistache::TimerPool::Entry::disarm")]
+        may_rel = summ15.lift_may(is_timer_release, "timer-release")
+        is_disarm = lambda e: e["k"] == "call" and (e.get("callee") or "") == "Pistache::TimerPool::Entry::disarm"
+        rel = [e for e in fn.events("call") if may_rel(e)]
         st_evs = [e for e in fn.events("call") if settle(e)]
-        dom = cfg.dominators(fn)
-        okt = bool(rel) and bool(dis) and bool(st_evs)
+        okt = bool(rel) and bool(st_evs)
         if okt:
-            # every settle is preceded (on the timer path) by disarm+release: release dominates settle, or is skipped only when there is no timer
-            timer_tests = [b for b in fn.blocks.values() if b.term and b.term.get("k") == "if" and strip_tmpl((b.term.get("core") or {}).get("f") or "").endswith("RequestEntry::timer")]
-            for s in st_evs:
-                before = [r for r in rel if (r.block == s.block and r.idx < s.idx) or (r.block != s.block and s.block in cfg.reachable_blocks(fn, r.block))]
+            # every settle is preceded (on the timer path) by disarm+release: a release lies before it
+            for s_ in st_evs:
+                before = [r for r in rel if (r.block == s_.block and r.idx < s_.idx) or (r.block != s_.block and s_.block in cfg.reachable_blocks(fn, r.block))]
                 if not before:
                     okt = False
-            okt = okt and all(any(cfg.ev_dominates(dom, d_, r) for d_ in dis) for r in rel)
+            # wherever the release itself is written (here or in a helper), a disarm dominates it
+            for g_ in lib.region(prog, fn, within=lambda g_: g_.base.startswith(CONN) and g_.base not in HANDLERS):
+                dg = cfg.dominators(g_)
+                for r in [e for e in g_.events("call") if is_timer_release(e)]:
+                    if not any(cfg.ev_dominates(dg, d_, r) for d_ in g_.events("call") if is_disarm(d_)):
+                        okt = False
         ck.ob("C15-R3", "%s/timer-released-first" % name, okt, fn.loc, fn, "timer->disarm() then releaseTimer before the request is settled")
         # R4
-        dones = [e for e in fn.events("call") if is_done(e)]
+        dones = [e for e in fn.events("call") if done_direct(e) or done_via_helper(e)]
         for e in dones:
             reached = []
 
@@ -234,20 +263,28 @@ def run(ck):
                   "the connection is handed back to the pool on a path that never reset the response parser: a late response is delivered to the next request")
 
     # onDone callbacks: release then process the queue
+    # the completion callbacks handed to the connection: the lambdas written (at any nesting depth: directly as the argument, or
+    # returned by a local factory lambda) in doRequest / processRequestQueue that give the connection back to the pool
+    def nested_lambdas(fn_):
+        out_ = []
+        for lf_ in prog.lambdas_in(fn_):
+            out_.append(lf_)
+            out_ += nested_lambdas(lf_)
+        return out_
     lam_sites = []
     for fn in prog.find(CLIENT + "doRequest", 1) + prog.find(CLIENT + "processRequestQueue", 1):
-        for e in fn.calls(lambda e: (e.get("callee") or "") in (CONN + "perform", CONN + "asyncPerform", CONN + "performImpl")):
-            for a in e.get("args") or []:
-                if a.get("lam"):
-                    for lf in prog.lambda_by_id(a["lam"], fn):
-                        lam_sites.append((fn, e, lf))
-    ck.require(len(lam_sites) >= 3, "onDone lambdas found: %d" % len(lam_sites))
+        users = [e for g_ in [fn] + nested_lambdas(fn) for e in g_.calls(lambda e: (e.get("callee") or "") in (CONN + "perform", CONN + "asyncPerform", CONN + "performImpl"))]
+        ck.require(users, "no perform/asyncPerform/performImpl call in %s" % fn.base)
+        cbs = [lf for lf in nested_lambdas(fn) if [x for x in lf.calls(lambda x: (x.get("callee") or "") == POOL + "releaseConnection")]]
+        ck.require(cbs, "no completion callback (a lambda that releases the connection) found in %s" % fn.base)
+        for lf in cbs:
+            lam_sites.append((fn, users[0], lf))
     for fn, e, lf in lam_sites:
         rel = [x for x in lf.calls(lambda x: (x.get("callee") or "") == POOL + "releaseConnection")]
         prq = [x for x in lf.calls(lambda x: (x.get("callee") or "") == CLIENT + "processRequestQueue")]
         d = cfg.dominators(lf)
         ok = len(rel) == 1 and len(prq) == 1 and cfg.ev_dominates(d, rel[0], prq[0])
-        ck.ob("C15-R3", "onDone-lambda:%s/%s" % (fn.base.replace(E, ""), e["callee"].rsplit("::", 1)[1]), ok, lf.loc, lf,
+        ck.ob("C15-R3", "onDone-lambda:%s" % fn.base.replace(E, ""), ok, lf.loc, lf,
               "pool.releaseConnection(conn) then processRequestQueue()")
 
     # ---------------- R6: no self-deadlock through the completion callbacks ----------------
@@ -327,15 +364,20 @@ def run(ck):
             "processRequestQueue(): the completion that frees a connection may run between the failed pick and the enqueue and then finds "
             "the queue still empty", 1)
     dr = lib.single(prog, CLIENT + "doRequest")
-    nulltests = [b for b in dr.blocks.values() if b.term and b.term.get("k") == "if" and b.term.get("cmp") == "==" and (b.term.get("rconst") == "nullptr" or "nullptr" in ((b.term.get("rhs") or {}).get("t") or ""))
-                 and (b.term.get("lhs") or {}).get("v") in {d_["var"] for d_ in dr.events("decl") if strip_tmpl(d_.get("icall") or "") == POOL + "pickConnection"}]
-    ck.require(nulltests, "`conn == nullptr` test not found in Client::doRequest")
-    enq = [e for lf in prog.lambdas_in(dr) for e in lf.calls(lambda e: e.base_callee() == "Pistache::MPMCQueue::enqueue")]
-    ck.require(enq, "enqueue of the waiting request not found in Client::doRequest")
-    for b in nulltests:
-        arm = b.succs[0]
-        bad = [x for x in cfg.exits_without(dr, lambda e: e["k"] == "call" and (e.get("callee") or "") == CLIENT + "processRequestQueue", start_block=arm) if x.kind != "throw"]
-        ck.ob("C15-R9", "doRequest/recheck-after-enqueue", not bad, "%s:%s" % (dr.file, b.term.get("l")), dr,
+    enq_lams = [lf for lf in prog.lambdas_in(dr) if [e for e in lf.calls(lambda e: e.base_callee() == "Pistache::MPMCQueue::enqueue")]]
+    ck.require(enq_lams, "enqueue of the waiting request not found in Client::doRequest")
+    # the place in doRequest where the queuing lambda is handed to the promise (it runs synchronously in the Promise constructor)
+    sites = []
+    for ev in dr.events():
+        if ev["k"] in ("call", "construct", "decl"):
+            for a_ in (ev.get("args") or []) + (ev.get("cargs") or []):
+                if a_.get("lam") and any(lf.id.split("#in:")[0] == a_["lam"].split("#in:")[0] for lf in enq_lams):
+                    sites.append(ev)
+    ck.require(sites, "the queuing lambda is not handed to anything in Client::doRequest")
+    recheck = lambda e: e["k"] == "call" and (e.get("callee") or "") == CLIENT + "processRequestQueue"
+    for ev in sites[:1]:
+        bad = [x for x in cfg.exits_without(dr, recheck, start_block=ev.block, start_idx=ev.idx + 1) if x.kind != "throw"]
+        ck.ob("C15-R9", "doRequest/recheck-after-enqueue", not bad, ev.loc, dr,
               "processRequestQueue() follows the enqueue on every path" if not bad else
               "the request is queued and doRequest returns without looking at the pool again: if the last busy connection finished in between, "
               "nothing ever starts the queued request")
